@@ -37,10 +37,22 @@ conf = {
   'status': 'caught' if check_exit == 1 and viol else 'missed',
   'ran': './seedtest %s /verif/seeded/%s --tests' % (name[:3], name),
 }
-if old.get('status', '').startswith('missed') and conf['status'] == 'caught':
+ost = old.get('status') or ''
+if not ost and 'exit 1' in str(old.get('check', '')):
+  ost = 'caught'
+# how the check as it stood when the seeded change arrived did: kept across re-runs
+at_first = old.get('at_first') or ('tie-only' if 'without failing input' in ost else
+                                   'missed' if ('missed' in ost or 'after strengthening' in ost) else ('caught' if ost else None))
+if at_first is None:
+  at_first = 'caught' if conf['status'] == 'caught' else 'missed'
+conf['at_first'] = at_first
+if at_first == 'tie-only' and conf['status'] == 'caught':
+  conf['status'] = 'reported without failing input at first, concrete input after strengthening'
+  conf['first_result'] = old.get('first_result') or old.get('check')
+if at_first == 'missed' and conf['status'] == 'caught':
   conf['status'] = 'missed at first, caught after strengthening'
-  conf['first_result'] = old.get('check') or old.get('first_result')
-for k in ('strengthening', 'first_result'):
+  conf['first_result'] = old.get('first_result') or old.get('check')
+for k in ('strengthening', 'first_result', 'check'):
   if k in old and k not in conf:
     conf[k] = old[k]
 if note:
